@@ -240,7 +240,14 @@ func checkC01(c *Ctx) {
 					pe := newPE(u, info, fd)
 					pe.oracle = func(pe *PE, st *peState, call *ast.CallExpr, id string) (Val, bool) { return Val{}, false }
 					st := newState()
-					st.sel["tk.Type"] = intVal(typeConsts[tk])
+					// the consumed token's type: any read of field Type of a *syntax.Token (whatever the variable is called)
+					tkVal := intVal(typeConsts[tk])
+					pe.selOracle = func(pe *PE, st *peState, sel *ast.SelectorExpr) (Val, bool) {
+						if astFieldName(info, sel.Sel) == "Type" && namedTypeIs(info.TypeOf(sel.X), "pkg/syntax", "Token") {
+							return tkVal, true
+						}
+						return Val{}, false
+					}
 					// find `match, tk := p.tryConsume(...)` and assume match
 					outs := pe.exec(st, lits[0].Body.List)
 					found := false
@@ -251,7 +258,7 @@ func checkC01(c *Ctx) {
 							if cl, ok := n.(*ast.CompositeLit); ok {
 								for _, el := range cl.Elts {
 									if kv, ok := el.(*ast.KeyValueExpr); ok {
-										if id, ok := kv.Key.(*ast.Ident); ok && id.Name == "Type" {
+										if id, ok := kv.Key.(*ast.Ident); ok && astFieldName(info, id) == "Type" {
 											nodeType = pe.eval(o.St, kv.Value)
 										}
 									}
@@ -781,7 +788,7 @@ func checkLogicCombiner(c *Ctx, u *Universe, logicConsts map[string]int64) {
 				evalCalls := 0
 				// the operator is whatever is read from the Type field of the *syntax.LogicExpr
 				pe.selOracle = func(pe *PE, st *peState, sel *ast.SelectorExpr) (Val, bool) {
-					if sel.Sel.Name == "Type" && namedTypeIs(info.TypeOf(sel.X), "pkg/syntax", "LogicExpr") {
+					if astFieldName(info, sel.Sel) == "Type" && namedTypeIs(info.TypeOf(sel.X), "pkg/syntax", "LogicExpr") {
 						return intVal(logicConsts[op]), true
 					}
 					return Val{}, false
